@@ -16,6 +16,7 @@ pub mod c10;
 pub mod c11;
 pub mod c12;
 pub mod c13;
+pub mod c14;
 pub mod c15;
 pub mod c16;
 pub mod c17;
@@ -37,6 +38,7 @@ pub fn run(id: &str, tier: Tier) -> i32 {
         "C11" => c11::run(tier),
         "C12" => c12::run(tier),
         "C13" => c13::run(tier),
+        "C14" => c14::run(tier),
         "C15" => c15::run(tier),
         "C16" => c16::run(tier),
         "C17" => c17::run(tier),
@@ -64,6 +66,7 @@ pub fn replay(id: &str, file: &Path) -> i32 {
         "C11" => c11::replay_file(file),
         "C12" => c12::replay(file),
         "C13" => c13::replay(file),
+        "C14" => c14::replay(file),
         "C15" => c15::replay(file),
         "C16" => c16::replay(file),
         "C17" => c17::replay_file(file),
